@@ -1,7 +1,8 @@
 import Driver.OpsCore
+import Driver.OpsSolvers
 namespace Driver
 
-def handlers : List Handler := [handleCore]
+def handlers : List Handler := [handleCore, handleSolvers]
 
 def step (st : St) (line : String) : St × String :=
   match (line.trimAscii.toString.splitOn " ").filter (· ≠ "") with
